@@ -11,6 +11,7 @@ import (
 	"sync"
 
 	"github.com/risor-io/risor/errz"
+	"github.com/risor-io/risor/internal/verifhook"
 	"github.com/risor-io/risor/op"
 	ros "github.com/risor-io/risor/os"
 )
@@ -210,10 +211,14 @@ func (f *File) Position() (int64, error) {
 }
 
 func (f *File) waitToClose() {
+	tok := verifhook.Spawn("file.watcher")
 	go func() {
+		verifhook.Start(tok)
+		defer verifhook.Exit(tok)
 		select {
 		case <-f.closed:
 		case <-f.ctx.Done():
+			verifhook.Yield("file.watcher.fire")
 			f.value.Close()
 		}
 	}()
